@@ -125,7 +125,7 @@ class SystemWorld:
     """An arbitrary CasInner<K>: index state (IndexWorld), pending intents, WAL manager position,
     configuration bits — everything the public operations read."""
 
-    def __init__(self, ex, st, U=3, HU=3, intents="arbitrary", sync_mode="sync", writer="arbitrary", N=None):
+    def __init__(self, ex, st, U=3, HU=3, intents="arbitrary", sync_mode="sync", writer="arbitrary", N=None, spill=False):
         from iomodel import IoModel, P
         self.ex = ex
         if ex.models.io_hook is None:
